@@ -295,6 +295,7 @@ fn main() {
     macro_rules! add {
         ($U:ty, $I:ty) => {
             jobs_for::<$U, $I>(&mut jobs);
+            checks::siblings::topic_jobs::<$U, $I>(&mut jobs, checks::siblings::Group::Pow, 150, FACTOR);
         };
     }
     for_all_cfgs!(add);
@@ -302,7 +303,7 @@ fn main() {
     runner::main(
         Property {
             id: "C08",
-            rule: "pow: bases from {0, +-1, +-2, +-3, 10, small, 2^j, 2^j+-1, -2^j, uniform 0..64-bit, structured patterns} with exponents {0..5, W-1, W, uniform < 2W, u32::MAX, u32::MAX-1, 2^k, 2^k-1}, plus (base, floor(maxbits/log2|base|) + {-2..2}) pairs at the overflow threshold and k-th roots of the bound +-1 with exponent k+-1. Oracle: flag = a^e not representable, decided by capped exact exponentiation in the reference integer; wrapped value by left-to-right modular exponentiation mod 2^W (a different algorithm from bnum's loop; the two reference algorithms are cross-checked); saturating picks MIN for negative base and odd exponent. ilog: x in {b^k, b^k+-1, MAX, patterns} for bases {2, 3, 10, 16, small, 2^j, 2^j+-1, 64-bit, patterns, MAX}, plus invalid arguments (x <= 0, base < 2, negative); oracle = greatest k with b^k <= x by repeated multiplication; checked forms None exactly for invalid arguments; no panic inside the valid forms (dbg build has overflow checks). In addition a SWEEP enumerates, for every configuration, every exponent k with b^k representable for b = 10 and b = 2 (plus 3, 7, 255, 65537, 2^32+15 up to 1088 bits) and checks ilog at b^k - 1, b^k, b^k + 1, whose logarithms are known by construction. NON-TRIVIAL: |a|>=2, e>=2 and a^e within a factor |a| of the representable bound; or x within +-1 of an exact power b^k (k>=1); or an invalid log argument. distinct = distinct (profile, job, inputs) by 64-bit hash. 8-bit configuration: all bases x 32 exponents, all (x, base) pairs.",
+            rule: "pow: bases from {0, +-1, +-2, +-3, 10, small, 2^j, 2^j+-1, -2^j, uniform 0..64-bit, structured patterns} with exponents {0..5, W-1, W, uniform < 2W, u32::MAX, u32::MAX-1, 2^k, 2^k-1}, plus (base, floor(maxbits/log2|base|) + {-2..2}) pairs at the overflow threshold and k-th roots of the bound +-1 with exponent k+-1. Oracle: flag = a^e not representable, decided by capped exact exponentiation in the reference integer; wrapped value by left-to-right modular exponentiation mod 2^W (a different algorithm from bnum's loop; the two reference algorithms are cross-checked); saturating picks MIN for negative base and odd exponent. ilog: x in {b^k, b^k+-1, MAX, patterns} for bases {2, 3, 10, 16, small, 2^j, 2^j+-1, 64-bit, patterns, MAX}, plus invalid arguments (x <= 0, base < 2, negative); oracle = greatest k with b^k <= x by repeated multiplication; checked forms None exactly for invalid arguments; no panic inside the valid forms (dbg build has overflow checks). In addition a SWEEP enumerates, for every configuration, every exponent k with b^k representable for b = 10 and b = 2 (plus 3, 7, 255, 65537, 2^32+15 up to 1088 bits) and checks ilog at b^k - 1, b^k, b^k + 1, whose logarithms are known by construction. NON-TRIVIAL: |a|>=2, e>=2 and a^e within a factor |a| of the representable bound; or x within +-1 of an exact power b^k (k>=1); or an invalid log argument. distinct = distinct (profile, job, inputs) by 64-bit hash. 8-bit configuration: all bases x 32 exponents, all (x, base) pairs. SIBLINGS job (per configuration): the entry points of this property's own operations that other properties anchor - the six operand forms of the std operators (a op b, &a op b, a op &b, &a op &b, a op= b, a op= &b; for shifts every primitive and bnum-typed amount type), Sum/Product, and the num_traits forwarders - are compared with the inherent method / const twin (same value, same panic outcome), so that a regression confined to one rarely used entry point is reported by the check of the operation it belongs to as well as by C17/C18.",
             assumptions: &[
                 "digits()/from_digits()/to_bits()/from_bits() are the trusted observation channel",
                 "reference exponentiation: exact with a size cap and modular left-to-right; cross-checked against each other in every case where the exact value is small enough",
